@@ -432,6 +432,14 @@ def part_history(ctx, rng, ents, gen, cases):
         rest = [k for k in keys if not any(hists[k][1])]
         keep_pred = rng.sample(pred, min(len(pred), 1500))
         keep = set(keep_pred) | set(rng.sample(rest, min(len(rest), 2500)))
+
+        def sandwich(evs):
+            # conversion; the caller edits what it got; the same conversion again (a cache hit if anything is cached)
+            return (len(evs) == 3 and evs[1]["act"] == "Edit" and evs[0]["act"] != "Edit" and evs[2]["act"] != "Edit"
+                    and X.kind_of(evs[0]["act"]) == X.kind_of(evs[2]["act"])
+                    and all(evs[0][f] == evs[2][f] for f in ("pe", "proj", "eng", "project")) and evs[0]["cache"] and not evs[2]["override"])
+
+        keep |= {k for k in keys if sandwich(hists[k][0])}
         hists = {k: hists[k] for k in keys if k in keep}
     # -- 3. replay on real grids (with crossing faces under both seam positions)
     pool = []
